@@ -19,7 +19,11 @@ EXTENDS Integers, Sequences, FiniteSets, TLC, Json
 
 CONSTANTS Layouts,      \* set of layouts: sequences of parts "DD" "MM" "YYYY" "YY" "hh" "mm" "ss" or a separator character
           Days, Months, Years4, Years2, Hours, Minutes, Seconds,   \* component values tried (also impossible ones)
-          Excel         \* BOOLEAN: the data format is excel (a trailing " 00:00:00" is dropped for date-only rules)
+          Excel,        \* BOOLEAN: the data format is excel (a trailing " 00:00:00" is dropped for date-only rules)
+          OnePassTranslation   \* TRUE (shipped): the rule is translated in one pass from left to right, a character that
+                               \* belongs to a translated placeholder is never looked at again; FALSE: pinned code, eight
+                               \* str.replace calls one after the other -- the "m" of "%m" (month) and a following "m" are
+                               \* taken for minutes (D71)
 
 Parts == {"DD", "MM", "YYYY", "YY", "hh", "mm", "ss"}
 DigitChar == <<"0", "1", "2", "3", "4", "5", "6", "7", "8", "9">>
@@ -53,8 +57,10 @@ Real(layout, v) ==
   LET y == FullYear(layout, v.Y)
       m == IF Has(layout, "MM") THEN v.M ELSE 1
       d == IF Has(layout, "DD") THEN v.D ELSE 1
+      \* without a year in the layout 29 February is a real day (of some year)
+      yd == IF Has(layout, "YYYY") \/ Has(layout, "YY") THEN y ELSE 1904
   IN /\ (Has(layout, "YYYY") => y >= 1)
-     /\ m \in 1..12 /\ d >= 1 /\ d <= DaysIn(y, IF m \in 1..12 THEN m ELSE 1)
+     /\ m \in 1..12 /\ d >= 1 /\ d <= DaysIn(yd, IF m \in 1..12 THEN m ELSE 1)
      /\ (Has(layout, "hh") => v.h \in 0..23) /\ (Has(layout, "mm") => v.m \in 0..59) /\ (Has(layout, "ss") => v.s \in 0..61)
 Tuple(layout, v) == <<FullYear(layout, v.Y), IF Has(layout, "MM") THEN v.M ELSE 1, IF Has(layout, "DD") THEN v.D ELSE 1,
                       IF Has(layout, "hh") THEN v.h ELSE 0, IF Has(layout, "mm") THEN v.m ELSE 0, IF Has(layout, "ss") THEN v.s ELSE 0>>
@@ -78,9 +84,14 @@ Replace(t, pat, rep) == IF Len(t) < Len(pat) THEN t
 
 Values == [D : Days, M : Months, Y : Years4 \cup Years2, h : Hours, m : Minutes, s : Seconds]
 \* only the components the layout uses vary; the others stay at a fixed valid value
-Relevant(l, v) == /\ (Has(l, "DD") \/ v.D = 15) /\ (Has(l, "MM") \/ v.M = 1)
+\* (the fixed values have to be members of the configured sets: with a value outside them the layouts that lack the component
+\* have no initial state at all -- a vacuity the first version of this module had, see DESIGN.md section 12)
+Relevant(l, v) == /\ (Has(l, "DD") \/ v.D = 1) /\ (Has(l, "MM") \/ v.M = 1)
                   /\ (IF Has(l, "YYYY") THEN v.Y \in Years4 ELSE IF Has(l, "YY") THEN v.Y \in Years2 ELSE v.Y = 20)
-                  /\ (Has(l, "hh") \/ v.h = 12) /\ (Has(l, "mm") \/ v.m = 0) /\ (Has(l, "ss") \/ v.s = 0)
+                  /\ (Has(l, "hh") \/ v.h = 0) /\ (Has(l, "mm") \/ v.m = 0) /\ (Has(l, "ss") \/ v.s = 0)
+\* every layout has cases (vacuity guard, checked by TLC as ASSUME)
+EveryLayoutHasCases == \A l \in Layouts : \E v \in Values : Relevant(l, v)
+ASSUME EveryLayoutHasCases
 Mutations == {"none", "sep", "letter", "xsuffix"}
 SepIdx(l) == {i \in 1..Len(l) : l[i] \notin Parts}
 Applicable(l, mu) == CASE mu = "sep" -> SepIdx(l) # {} [] mu = "xsuffix" -> TRUE [] OTHER -> TRUE
@@ -102,10 +113,18 @@ Init == /\ layout \in Layouts /\ vals \in {v \in Values : Relevant(layout, v)}
         /\ (mutation # "none" => Real(layout, vals))            \* mutate valid cells only
         /\ fmt = RuleText(layout) /\ step = 0 /\ cell = Mutated(layout, vals, mutation) /\ outcome = <<>>
 
-\* fields.py:556-558, one replacement per step
+\* one pass: at every position the first entry of the table that matches is translated, its result is not scanned again
+MinOf(S) == CHOOSE m \in S : \A o \in S : m <= o
+RECURSIVE OnePass(_)
+OnePass(t) == IF t = <<>> THEN <<>>
+              ELSE LET hits == {i \in 1..Len(Table) : Len(t) >= Len(Table[i][1]) /\ SubSeq(t, 1, Len(Table[i][1])) = Table[i][1]} IN
+                   IF hits = {} THEN <<Head(t)>> \o OnePass(Tail(t))
+                   ELSE Table[MinOf(hits)][2] \o OnePass(SubSeq(t, Len(Table[MinOf(hits)][1]) + 1, Len(t)))
+\* fields.py, DateTimeFieldFormat.__init__: the translation of the rule (pinned code: one replacement per step)
 ApplyReplacement ==
   /\ step < Len(Table)
-  /\ fmt' = Replace(fmt, Table[step + 1][1], Table[step + 1][2]) /\ step' = step + 1
+  /\ IF OnePassTranslation THEN fmt' = OnePass(fmt) /\ step' = Len(Table)
+     ELSE fmt' = Replace(fmt, Table[step + 1][1], Table[step + 1][2]) /\ step' = step + 1
   /\ UNCHANGED <<layout, vals, mutation, cell, outcome>>
 
 \* time.strptime for zero-padded input: fixed-width digit groups, literals must match, everything consumed
@@ -135,7 +154,8 @@ Validate ==
                  y == IF g["Y"] # <<>> THEN g["Y"][1] ELSE IF g["y"] # <<>> THEN (IF g["y"][1] <= 68 THEN 2000 + g["y"][1] ELSE 1900 + g["y"][1]) ELSE 1900
                  m == Opt(g["m"], 1)
                  d == Opt(g["d"], 1)
-                 ok == /\ (g["Y"] # <<>> => y >= 1) /\ m \in 1..12 /\ d >= 1 /\ d <= DaysIn(y, IF m \in 1..12 THEN m ELSE 1)
+                 yd == IF g["Y"] # <<>> \/ g["y"] # <<>> THEN y ELSE 1904      \* (_strptime.py: 29 February without a year is taken as a day of 1904, the result says 1900)
+                 ok == /\ (g["Y"] # <<>> => y >= 1) /\ m \in 1..12 /\ d >= 1 /\ d <= DaysIn(yd, IF m \in 1..12 THEN m ELSE 1)
                        /\ Opt(g["H"], 0) \in 0..23 /\ Opt(g["M"], 0) \in 0..59 /\ Opt(g["S"], 0) \in 0..61
              IN outcome' = IF ok THEN <<"accept", <<y, m, d, Opt(g["H"], 0), Opt(g["M"], 0), Opt(g["S"], 0)>> >> ELSE <<"reject">>
   /\ UNCHANGED <<layout, vals, mutation, fmt, step, cell>>
